@@ -154,6 +154,16 @@ class HistoryHarness(Harness):
                     elif s in REQ_STEPS:
                         j += 1
                         await do_request(j)
+                    elif s == "peer_eof":
+                        # the peer drops the connection while it is idle between two requests (stream: FIN; datagram:
+                        # an ICMP port-unreachable for the kept-alive socket)
+                        import errno as _errno
+                        for sk in list(world.sockets.values()):
+                            if not sk.closed and sk.connected:
+                                sk.rx.append(("err", _errno.ECONNREFUSED) if sk.is_dgram else ("eof",))
+                        await asyncio.sleep(1)
+                        obs.steps.append(("open after peer_eof", len([t for t in transports()
+                                                                        if not getattr(t, "_sock", None) or not t._sock.is_dgram])))
                     elif s == "close":
                         try:
                             await inv._protocol.close()
@@ -287,6 +297,8 @@ class HistoryHarness(Harness):
                     fail("a transport is still open after close()")
                 if st[0] in ("close raised",):
                     fail("close() raised", st[1])
+                if st[0] == "open after peer_eof" and st[1] != 0:
+                    fail("a connection dropped by the peer while idle is still held as an open transport", str(st[1]))
             for r, kind in zip(reqs, steps_req):
                 # (a datagram of an earlier request that arrives while this one is under way cannot be told from its own
                 # answer on these framings: C06/C07's subject, not connection management)
